@@ -113,6 +113,7 @@ def run(ctx):
     from harness.checks import c08
     c08._run(ctx, "ens", "small", limit=(400 if ctx.tier == "quick" else None))
     c08._run(ctx, "event", "full", limit=(300 if ctx.tier == "quick" else 3000))
+    c08._run(ctx, "pit", "small" if ctx.tier == "quick" else "full")
     ctx.traces += len(jobs)
     for o, fmt, enc in [j[:3] for j in jobs]:
         if any("nan" in i["obs"] or "nan" in i["fcst"] for i in o["inputs"]):
